@@ -59,8 +59,11 @@ def gen_loop(rng, lbs=(0,), steps=(1,), min_trips_stages=True):
                 idx_in = "%col"
         else:
             idx_in = "%col"
-    emit(3, f"%in = memref.subview %A[{idx_in}, 0] [1, 8] [1, 1] : memref<16x8xi32> to {TILE}")
-    emit(3, f"%out = memref.subview %B[{idx_out}, 0] [1, 8] [1, 1] : memref<16x8xi32> to {TILE}")
+    # the constant that is the loop's lower bound may have other users (CSE leaves one %c0 per function): the column offset of the tiles
+    # and a second, ordinary loop after the pipelined one
+    col = "%lb" if (lb == 0 and rng.random() < 0.4) else "0"
+    emit(3, f"%in = memref.subview %A[{idx_in}, {col}] [1, 8] [1, 1] : memref<16x8xi32> to {TILE}")
+    emit(3, f"%out = memref.subview %B[{idx_out}, {col}] [1, 8] [1, 1] : memref<16x8xi32> to {TILE}")
     # stage 0: load; middle stages: compute or move; last stage: store
     if two_loads:
         emit(3, f"%in2 = memref.subview %C[%i, 0] [1, 8] [1, 1] : memref<16x8xi32> to {TILE}")
@@ -97,6 +100,11 @@ def gen_loop(rng, lbs=(0,), steps=(1,), min_trips_stages=True):
     emit(3, '"snax.cluster_sync_op"() : () -> ()')
     emit(2, "}")
     post = []
+    if lb == 0 and step == 1 and rng.random() < 0.25:
+        post += ["    %two = arith.constant 2 : index", "    scf.for %j = %lb to %two step %st {",
+                 f"      %pa = memref.subview %A[%j, 0] [1, 8] [1, 1] : memref<16x8xi32> to {TILE}",
+                 f"      %pd = memref.subview %D[%j, 0] [1, 8] [1, 1] : memref<16x8xi32> to {TILE}",
+                 f'      "memref.copy"(%pa, %pd) {{tag = 77 : i32}} : ({TILE}, {TILE}) -> ()', "    }"]
     if rng.random() < 0.3:
         post.append(f'    "test.op"(%buf{nbuf - 1}) {{tag = 99 : i32}} : ({BUF}) -> ()')
     ubdef = "" if dyn_ub else f"    %ub = arith.constant {ub_val} : index\n"
